@@ -532,7 +532,7 @@ class Gen:
         return self.arbitrary(depth + 1)
 
 
-def scenarios_conv(seed, n, op='from_data', max_depth=3, classes=True):
+def scenarios_conv(seed, n, op='from_data', max_depth=3, classes=True, history=0.0):
     """n scenarios (type, value) with the valid / near-valid / arbitrary mix 45 / 40 / 15"""
     g = random.Random(seed)
     out = []
@@ -552,8 +552,57 @@ def scenarios_conv(seed, n, op='from_data', max_depth=3, classes=True):
             json.dumps(wire)
         except Exception:
             stream, wire = 'arbitrary', ENC.enc(gen.arbitrary())
-        out.append({'id': f'{seed}:{i}', 'decl': gen.decl, 'op': op, 'ty': ty, 'val': wire, 'spell': gen.r.randrange(2),
-                    'stream': stream})
+        sc = {'id': f'{seed}:{i}', 'decl': gen.decl, 'op': op, 'ty': ty, 'val': wire, 'spell': gen.r.randrange(2), 'stream': stream}
+        out.append(sc)
+        if history and stream == 'valid' and (i * 2654435761 + seed) % 100 < history * 100:
+            # earlier conversions to the SAME type, of other valid values, in the same interpreter (drawn after the scenario
+            # itself, from its own generator: the scenario is what it would be without them)
+            pre = []
+            for _ in range(gen.r.randint(1, 3)):
+                try:
+                    w = ENC.enc(gen.valid(ty))
+                    json.dumps(w)
+                    pre.append({'ty': ty, 'val': w})
+                except Exception:
+                    pass
+            if pre:
+                sc['pre'] = pre
+    return out
+
+
+def scenarios_union_history(seed, n, op='roundtrip'):
+    """unions whose members overlap, reached through a declared type (a dataclass field, a list element); first values only a
+    LATER member takes, then a value an earlier member takes too: which member answers must not depend on the history"""
+    g = random.Random(seed)
+    out = []
+    pairs = [(['int', 'float'], [2.5, 0.1], [3, 0, -4]), (['bool', 'int'], [7, 2], [True, False]), (['int', 'str'], ['a', 'tbd'], [5]),
+             (['float', 'Decimal'], ['1.50', '0.3'], [1.0, 2.5]), (['int', 'Fraction'], ['1/3'], [2, 7]), (['date', 'str'], ['to be announced'], ['2024-02-29']),
+             (['NoneType', 'int', 'float'], [1.5], [1, None])]
+    for i in range(n):
+        ge = Gen(g.randrange(1 << 62), max_depth=1, classes=True)
+        r = ge.r
+        members, later, both = r.choice(pairs)
+        u = {'union': members}
+        shape = r.choice(['field', 'field', 'listfield', 'list', 'dictval'])
+        if shape in ('field', 'listfield'):
+            name = ge.fresh('UH')
+            fty = u if shape == 'field' else {'seq': ['list', u]}
+            d = {'name': name, 'fields': [{'name': 'v', 'ty': fty}], 'opts': {}, 'hook': None}
+            ge.decl['classes'].append(d)
+            ge.class_info[name] = d
+            ty = {'cls': [name, []]}
+            mk = (lambda x: {'v': x}) if shape == 'field' else (lambda x: {'v': [x]})
+        elif shape == 'list':
+            ty, mk = {'seq': ['list', u]}, (lambda x: [x])
+        else:
+            ty, mk = {'map': ['dict', ['str', u]]}, (lambda x: {'k': x})
+        pre = [{'ty': ty, 'val': ENC.enc(mk(r.choice(later)))} for _ in range(r.randint(1, 2))]
+        main = mk(r.choice(both))
+        if shape in ('listfield', 'list') and r.random() < 0.5:
+            # the history inside ONE value: an earlier element of the same list
+            inner = [r.choice(later), r.choice(both)]
+            main = {'v': inner} if shape == 'listfield' else inner
+        out.append({'id': f'uh{seed}:{i}', 'decl': ge.decl, 'op': op, 'ty': ty, 'val': ENC.enc(main), 'spell': 0, 'stream': 'union-history', 'pre': pre})
     return out
 
 
@@ -1740,4 +1789,47 @@ def scenarios_reach(seed, n):
             continue
         out.append({'id': f're{seed}:{i}', 'decl': {'enums': [], 'subs': [], 'classes': []}, 'op': 'reach', 'ty': ty, 'val': wire,
                     'handlers': {'globals': [h]}, 'spell': 0, 'stream': 'reach'})
+    return out
+
+
+def scenarios_inherited_hook(seed, n, op='try_collect'):
+    """C03 / C14: dataclasses whose validation hook is INHERITED (from a base class, through a subscripted generic base, two
+    levels up): data that only the hook rejects, in struct and tuple layout, alone and nested"""
+    g = random.Random(seed)
+    out = []
+    for i in range(n):
+        ge = Gen(g.randrange(1 << 62), max_depth=1, classes=True)
+        r = ge.r
+        generic = r.random() < 0.3
+        base = ge.fresh('B')
+        hook = r.choice(['reject_neg:x', 'reject_neg:x', 'raise_always'])
+        bd = {'name': base, 'fields': [{'name': 'x', 'ty': 'int'}], 'opts': {'in_format': r.choice([['struct'], ['tuple', 'struct']])}, 'hook': hook}
+        if generic:
+            bd['tvars'] = ['T']
+            bd['fields'].append({'name': 'g', 'ty': tv('T'), 'default': {'value': None}})
+        chain = [bd]
+        prev = base
+        for lvl in range(r.randint(1, 2)):
+            nm = ge.fresh('S')
+            d = {'name': nm, 'fields': [], 'opts': {}, 'hook': None, 'base': {'cls': [prev, (['int'] if generic and lvl == 0 else [])]}}
+            if r.random() < 0.5:
+                d['fields'].append({'name': 'extra%d' % lvl, 'ty': 'str', 'default': {'value': 'e'}})
+            chain.append(d)
+            prev = nm
+        for d in chain:
+            ge.decl['classes'].append(d)
+            ge.class_info[d['name']] = d
+        xv = r.choice([-1, -5, 0, 3, 'bad'])
+        v = {'x': xv}
+        ty = {'cls': [prev, []]}
+        if 'tuple' in bd['opts']['in_format'] and r.random() < 0.4:
+            v = [xv]
+        wrap = r.random()
+        if wrap < 0.2:
+            ty, v = {'seq': ['list', ty]}, [v]
+        elif wrap < 0.35:
+            ty = {'union': [ty, 'NoneType']}
+        elif wrap < 0.45:
+            ty, v = {'map': ['dict', ['str', ty]]}, {'k': v}
+        out.append({'id': f'ih{seed}:{i}', 'decl': ge.decl, 'op': op, 'ty': ty, 'val': ENC.enc(v), 'spell': r.randrange(2), 'stream': 'inherited-hook'})
     return out
